@@ -97,6 +97,51 @@ func c06(c *Ctx) {
 	if fn := c.Fn(numaPkg, "", "satisfiedRequiredCPUBindPolicy"); fn != nil {
 		c06verifier(c, fn)
 	}
+	if fn := c.Fn(numaPkg, "", "takeCPUs"); fn != nil {
+		c06accumulator(c, fn)
+	}
+}
+
+// c06accumulator: no CPUs are taken once every "still needs n" test says no.
+func c06accumulator(c *Ctx, fn *ssa.Function) {
+	r := c.R
+	r.Rule("PATH(accumulator): in takeCPUs, from behind every acc.take(...), assuming every later acc.needs(n) returns false, no further acc.take is reachable except the exact form take(cpus[:acc.numCPUsNeeded]...) (which takes what is still needed and nothing more); otherwise more CPUs than requested can be returned")
+	var takes []ssa.CallInstruction
+	facts := an.Facts{}
+	for _, cl := range an.Calls(fn, false) {
+		switch an.ShortCallee(cl.Common()) {
+		case "take":
+			takes = append(takes, cl)
+		case "needs":
+			if cl.Value() != nil {
+				facts[cl.Value()] = an.False
+			}
+		}
+	}
+	exact := func(t ssa.CallInstruction) bool {
+		// variadic argument is a slice expression cpus[:acc.numCPUsNeeded]
+		for x := range backwardAll(t.Common().Args[len(t.Common().Args)-1]) {
+			if sl, ok := x.(*ssa.Slice); ok && sl.High != nil && strings.HasSuffix(an.Path(sl.High), ".numCPUsNeeded") && sl.Low == nil {
+				return true
+			}
+		}
+		return false
+	}
+	n := 0
+	for _, t := range takes {
+		n++
+		key := sprintf("%s/take#%d", fkey(fn), n)
+		reach := an.Explore(fn, an.After(t), facts, nil)
+		var bad []string
+		for _, t2 := range takes {
+			if reach.Reached(t2) && !exact(t2) {
+				bad = append(bad, c.InstrPos(t2))
+			}
+		}
+		r.Check(len(bad) == 0, "PATH", key, c.InstrPos(t), "after this take nothing is taken unless a needs() test allows it",
+			"after this take a further take at "+strings.Join(bad, ",")+" is reachable although every needs() test says nothing more is needed: a whole extra core is taken and more CPUs than requested are returned")
+	}
+	r.Floor("PATH", "take sites in takeCPUs", n, 7)
 }
 
 func effStrings(es []an.Effect) []string {
